@@ -17,14 +17,17 @@ type tyNode struct {
 	Elem   *tyNode
 	N      int
 	Fields []tyField
+	Alt    bool // validators are read from the `check` tag (ValidatorTag("check")), `validate` holds VAlt
 	rt     reflect.Type
 }
 
 type tyField struct {
 	GoName string
 	CTag   string // config tag
-	VTag   string // validate tag
+	VTag   string // validate tag (the validators in force)
 	T      *tyNode
+	VAlt   string // validators under the other tag name (dual types only)
+	Dual   bool
 }
 
 var primKinds = []kindSpec{
@@ -67,11 +70,21 @@ func (t *tyNode) goType() reflect.Type {
 			if f.CTag != "" {
 				tag = fmt.Sprintf(`config:"%s"`, f.CTag)
 			}
-			if f.VTag != "" {
-				if tag != "" {
-					tag += " "
+			vname, aname := "validate", "check"
+			if t.Alt {
+				vname, aname = aname, vname
+			}
+			tags := map[string]string{vname: f.VTag}
+			if f.Dual {
+				tags[aname] = f.VAlt
+			}
+			for _, n := range []string{"validate", "check"} {
+				if v, ok := tags[n]; ok && (v != "" || f.Dual) {
+					if tag != "" {
+						tag += " "
+					}
+					tag += fmt.Sprintf(`%s:"%s"`, n, v)
 				}
-				tag += fmt.Sprintf(`validate:"%s"`, f.VTag)
 			}
 			fs = append(fs, reflect.StructField{Name: f.GoName, Type: f.T.goType(), Tag: reflect.StructTag(tag)})
 		}
@@ -398,6 +411,53 @@ func listStruct(r *Rng, c typeGenCfg) *tyNode {
 		t.Fields = []tyField{z, l}
 	}
 	return t
+}
+
+// dualize gives every struct field of t a second set of validators under the other tag name;
+// swapTags is the same Go type read with the other tag name
+func dualize(r *Rng, t *tyNode) {
+	if t == nil {
+		return
+	}
+	t.rt = nil
+	dualize(r, t.Elem)
+	for i := range t.Fields {
+		f := &t.Fields[i]
+		f.Dual = true
+		ch := vtagChoices[vtagClass(f.T)]
+		f.VAlt = ""
+		if r.P(2, 3) {
+			f.VAlt = ch[r.Intn(len(ch))]
+		}
+		dualize(r, f.T)
+	}
+}
+
+func swapTags(t *tyNode) *tyNode {
+	if t == nil {
+		return nil
+	}
+	c := *t
+	c.rt = nil
+	c.Alt = !t.Alt
+	c.Elem = swapTags(t.Elem)
+	c.Fields = nil
+	for _, f := range t.Fields {
+		f.VTag, f.VAlt = f.VAlt, f.VTag
+		f.T = swapTags(f.T)
+		c.Fields = append(c.Fields, f)
+	}
+	return &c
+}
+
+func (t *tyNode) usesCheckTag() bool {
+	if t == nil {
+		return false
+	}
+	if t.Kind == "struct" {
+		return t.Alt
+	}
+	return t.Elem.usesCheckTag()
 }
 
 var fieldNames = []string{"A", "B", "C", "D", "E"}
